@@ -684,6 +684,9 @@ func (e *Engine) runScript(s *Submission, script []string, r res.Resource, kind 
 			switch arg {
 			case "reserr":
 				panic(&res.Error{Code: "test.custom", Message: "Custom " + strconv.Itoa(s.Op.ID)})
+			case "reserrnomsg":
+				// an error with a code only still has a message member
+				panic(&res.Error{Code: "test.nomsg"})
 			case "err":
 				panic(errors.New("plain error " + strconv.Itoa(s.Op.ID)))
 			case "wraperr":
@@ -737,6 +740,8 @@ func (e *Engine) reply(s *Submission, r res.Resource, kind, what string) {
 		r.(interface{ NotFound() }).NotFound()
 	case "err":
 		r.(errT).Error(&res.Error{Code: "test.err", Message: "Err " + strconv.Itoa(s.Op.ID) + model.TrickyFor(s.Op.ID), Data: map[string]int{"x": 1}})
+	case "errnomsg":
+		r.(errT).Error(&res.Error{Code: "test.nomsg"})
 	case "plainerr":
 		r.(errT).Error(errors.New("plain " + strconv.Itoa(s.Op.ID)))
 	case "granted":
